@@ -35,7 +35,7 @@ THEOREMS = [("Kopf.Props.X01", "Kopf.X01." + n) for n in [
     "work_queue_le", "work_queue_lt_of_no_version", "witer_queue_le", "stale_then_converges_partial",
 ]] + [("Kopf.Props.X01_Variant", "Kopf.X01." + n) for n in [
     "workA_arrive", "runActsA_arrive", "lax_arrival_witness",
-]]
+]] + [("Kopf.Props.X01_Noop", "Kopf.X01.noop_makes_no_version")]
 
 
 def ticks(x: float) -> int:
@@ -73,7 +73,14 @@ def gen_scenario(rng: Any, i: int) -> dict:
     if rng.random() < 0.25:
         handlers.append({"kind": "update", "id": "u1", "script": script(), "default": "ok"})
     t_create = 1.0
-    timeline: list[list] = [[t_create, "create", "a", {"spec": {"x": 0}}]]
+    # an on.event handler returning a CONSTANT (8 %): every cycle's patch is non-empty and changes nothing (the object is created
+    # with that result already stored, so it is a no-op from the first cycle on): C03's `constPatch`, and GLUE 7 on stale views
+    const_event = rng.random() < float(os.environ.get("X01_CONST_P", "0.08"))
+    body0: dict = {"spec": {"x": 0}}
+    if const_event:
+        handlers.append({"kind": "event", "id": "e0", "script": [], "default": ["ok", {"state": "seen"}]})
+        body0["status"] = {"e0": {"state": "seen"}}
+    timeline: list[list] = [[t_create, "create", "a", body0]]
     window = (L + R) * 4 + own + foreign + 64
     x = 0
     t_last = t_create
@@ -93,7 +100,7 @@ def gen_scenario(rng: Any, i: int) -> dict:
     if rng.random() < 0.35:
         timeline.append([t_quiet, "edit", "a", {"spec": {"x": 900}}])
         t_quiet += 6 * horizon + 6
-    if rng.random() < 0.4:
+    if not const_event and rng.random() < 0.4:
         # deletion with the framework's finalizer: a mandatory delete handler (the finalizer is added in a turn of its own — on a
         # stale view its JSON-patch is refused with 422 and the next event decides anew), a deletion request at the end, the release
         handlers.append({"kind": "delete", "id": "x0", "script": script() if rng.random() < 0.4 else [], "default": "ok",
@@ -245,6 +252,7 @@ def abstract(sc: dict, tr: dict) -> dict:
                 raise Skip("outcome-conflict")
         tables[c["i"]] = table
 
+    const_patch = any(h["kind"] == "event" and isinstance(h.get("default"), list) and len(h["default"]) > 1 for h in sc["handlers"])
     # sequence the adversary's actions: versions in the server's order; a worker iteration right where its write landed
     acts: list[dict] = []
     impl: list[dict | None] = []
@@ -285,6 +293,7 @@ def abstract(sc: dict, tr: dict) -> dict:
             "_sleep": None if c7.get("sleep") is None else bool(c7["sleep"].get("timed_out")),
             "_released": bool(mine and mine[0] == deleted_rv), "_422": c["i"] in conflict,
             "_fin": ((c.get("apply") or {}).get("fns") or [None])[0] if c.get("pcc") is None else None,
+            "_constcut": bool(const_patch and (c.get("apply") or {}).get("delays") and not mine and per_cycle_reqs.get(c["i"], 0) >= 1),
         })
 
     for v in hist[1:]:
@@ -332,9 +341,9 @@ def abstract(sc: dict, tr: dict) -> dict:
         "decls": pp["decls"], "matched": pp["matched"], "subs": [], "lifecycle": sc.get("lifecycle") or "asap",
         "limits": pp["limits"], "outcomes": {}, "prematch": True,
         "changeReq": any(h["kind"] == "delete" and not h.get("opts", {}).get("optional") for h in sc["handlers"]), "foreignFins": False,
-        "constPatch": False, "lat": lat, "rtt": lat, "cap": cap, "universe": owned,
+        "constPatch": const_patch, "lat": lat, "rtt": lat, "cap": cap, "universe": owned,
         "ess": e0, "now": lt(d0["t_emit"] + d0["delay"]), "noticed": cycles[0]["event_type"] is None, "acts": acts}]
-    return {"req": req, "impl": impl, "T": sc["settings"]["persistence.consistency_timeout"],
+    return {"req": req, "impl": impl, "const": const_patch, "T": sc["settings"]["persistence.consistency_timeout"],
             "echo_class": sc["c07"].get("echo_class")}
 
 
@@ -471,12 +480,23 @@ def run_reactor(ctx: Any, traces: list[dict] | None = None, n: int | None = None
             if not m.get("work"):
                 ctx.compare("X01 worker iteration: the model has an event to dequeue", {"work": True}, {"work": False}, rep)
                 break
+            if im["_constcut"] and not m["stale"]:
+                # stated limit (the model's turn is atomic): the constant request is served, THEN the sleep starts and is cut by an event
+                # whose write came after that request — ordered before the turn it makes the view stale (GLUE 7 arms on it), ordered
+                # after it there is nothing to cut the sleep: neither is what happened. The rest of this history is not compared.
+                ctx.count("x01_model_limit", "constPatch: sleep after the constant request cut by a later write: history cut here")
+                break
             keys = [k2 for k2 in KEYS if not (im["_released"] and k2 in ("P", "base", "blocked"))]
             real = {key: im[key] for key in keys}
             model = {key: m[key] for key in keys}
             if im["_released"]:
                 model["gone"], real["gone"] = m["gone"], True
                 ctx.count("x01_paths", "release: the finalizer removed, the object gone, the version that never arrives")
+            if t.get("const") and m["stale"] and im["writes"] == 1 and im["patched"] is None and not im["invoked"]:
+                ctx.count("x01_paths", "constPatch on a stale view: one request, no version, no sleep/touch (GLUE 7)"
+                          + (", held back" if held else ""))
+            elif t.get("const") and im["writes"] >= 1 and im["patched"] is None:
+                ctx.count("x01_paths", "constPatch: the constant part sent, nothing changed")
             if im["_422"]:
                 ctx.count("x01_paths", "finConflict-422: a stale view's finalizer JSON-patch refused, the next event decides anew")
             if im["_fin"] in ("block_deletion", "allow_deletion") and not im["_422"] and not im["_released"]:
